@@ -78,6 +78,33 @@ func VerifC15_TranslatorPoison() {
 	verif.Assert(counter.n >= 1, "poison-callbacks-ran")
 }
 
+// VerifC15_TranslatorEmbeddedPoison: the same with arbitrary bytes in front of and behind the record.
+func VerifC15_TranslatorEmbeddedPoison() {
+	svc, s, counter := verifService()
+	var rec []byte
+	var err error
+	if verif.Choose("kind", 0, 1) == 0 {
+		rec, err = poison.CreateSymmetricPoisonRecord(s, 2)
+	} else {
+		rec, err = poison.CreatePoisonRecord(s, 2)
+	}
+	if err != nil {
+		return
+	}
+	hi := 2 + verif.Tier()
+	prefix := verif.Bytes("prefix", verif.Choose("p", 1, hi))
+	suffix := verif.Bytes("suffix", verif.Choose("s", 0, 1))
+	value := append(append(verifDup(prefix), rec...), suffix...)
+	ctx := context.Background()
+	if verif.Choose("operation", 0, 1) == 0 {
+		_, err = svc.Decrypt(ctx, verifDup(value), []byte("A"), nil)
+	} else {
+		_, err = svc.DecryptSym(ctx, verifDup(value), []byte("A"), nil)
+	}
+	verif.Reach("operation-returned")
+	verif.Assert(counter.n >= 1, "poison-callbacks-ran")
+}
+
 // VerifC01_TranslatorRoundTrip: what the translator's encrypt operations produce, its decrypt operations give back
 // byte for byte to the same client, and the callbacks stay silent; another client and a client without keys get an
 // error (C02), again without an alarm.
